@@ -1,3 +1,3 @@
 SPECIFICATION Spec
-INVARIANTS EachOptionItsOwnField SyntaxesAgree CacheAsymmetry DefaultsWhenUnset OnlyDocVarsSubstituted NoVarNoChange
+INVARIANTS EachOptionItsOwnField SyntaxesAgree CacheAsymmetry DefaultsWhenUnset OnlyDocVarsSubstituted NoVarNoChange UnsetTakesDefaultInList OptionStaysInItsEntry EntriesIndependent
 CHECK_DEADLOCK FALSE
